@@ -401,6 +401,34 @@ func genGatedCase(r *core.Rand) []string {
 
 var gatedReads bool
 
+// genStallCase: 2..4 messages with bodies of many small reads, logged free-running while the stream's
+// writer is blocked for 400..1500 ms of wall clock inside one early Write (a slow disk, a stuck
+// subscriber): the logging goroutines must wait for it, whatever it takes, and every frame must arrive.
+func genStallCase(r *core.Rand, tier string) []string {
+	n := r.Range(2, 4)
+	var ops []string
+	for i := 0; i < n; i++ {
+		kind := byte('q')
+		if r.Bool() {
+			kind = 's'
+		}
+		var steps []string
+		for k := r.Range(25, 60); k > 0; k-- {
+			steps = append(steps, fmt.Sprintf("%s:n:%d", dataToken(r, r.Range(1, 40)), r.Intn(3)))
+		}
+		steps = append(steps, r.Pick("-:e:0", "6162:e:0"))
+		m := genMsg(r, "gated", kind, fmt.Sprintf("%08x", uint32(r.U64())))
+		f := strings.Split(m, "/")
+		f[8] = strings.Join(steps, ";")
+		ops = append(ops, "m "+strings.Join(f, "/"))
+	}
+	ms := r.Range(400, 1200)
+	if tier == "thorough" {
+		ms = r.Range(400, 1500)
+	}
+	return append(ops, fmt.Sprintf("runstall %d.%d", ms, r.Range(4, 12*n)))
+}
+
 func genLogCase(r *core.Rand, tier string) []string {
 	n := []int{1, 2, 2, 3, 4, 5, 6, 8}[r.Intn(8)]
 	if tier == "gated" {
@@ -654,6 +682,13 @@ func (P) Gen(r *core.Rand, tier string, emit func([]string)) {
 	// process has not yet accumulated the writer goroutines of marbl.Modifier streams (no Close there)
 	for i := 0; i < gated; i++ {
 		emit(genGatedCase(r))
+	}
+	stalls := 1
+	if tier == "thorough" {
+		stalls = 6
+	}
+	for i := 0; i < stalls; i++ {
+		emit(genStallCase(r, tier))
 	}
 	for i := 0; i < logs; i++ {
 		emit(genLogCase(r, tier))
